@@ -61,7 +61,8 @@ theorem shift_step (hI : Inv h) (i : Nat) (hi : i < h.views.length) (h1 : h.lock
       Moved h (h2.setView i { h.view i with off := 0 }) i ∧
       (h2.setView i { h.view i with off := 0 }).view i = { h.view i with off := 0 } ∧
       ((h2.setView i { h.view i with off := 0 }).blob (h.view i).blob).size = (h.view i).len ∧
-      ((h2.setView i { h.view i with off := 0 }).blob (h.view i).blob).cap = (h.blob (h.view i).blob).cap := by
+      ((h2.setView i { h.view i with off := 0 }).blob (h.view i).blob).cap = (h.blob (h.view i).blob).cap ∧
+      (h2.setView i { h.view i with off := 0 }).lockCount (h.view i).blob = 1 := by
   have hv := hI.view i hi
   have hbl := hI.bl _ hv.1
   unfold AtTail at htail
@@ -74,7 +75,7 @@ theorem shift_step (hI : Inv h) (i : Nat) (hi : i < h.views.length) (h1 : h.lock
   have hsame := Heap.blob_setBlob_same h (h.view i).blob
     { h.blob (h.view i).blob with data := (h.blob (h.view i).blob).data.drop (h.view i).off } hv.1
   refine ⟨h.setBlob (h.view i).blob { h.blob (h.view i).blob with data := (h.blob (h.view i).blob).data.drop (h.view i).off }, ?_,
-    ⟨⟨hrw.1, by simp, ?_⟩, ?_, by simp, ?_⟩, ?_, ?_, ?_⟩
+    ⟨⟨hrw.1, by simp, ?_⟩, ?_, by simp, ?_⟩, ?_, ?_, ?_, ?_⟩
   · unfold blobConsume
     rw [if_pos ⟨hoff, hsz⟩, if_neg (by rw [h1]; omega), hmin]
   · rw [hrw.2]
@@ -94,6 +95,8 @@ theorem shift_step (hI : Inv h) (i : Nat) (hi : i < h.views.length) (h1 : h.lock
     rw [hsame]; exact hdl
   · show ((h.setBlob _ _).blob (h.view i).blob).cap = _
     rw [hsame]
+  · show ((h.setBlob _ _).blob (h.view i).blob).refs = 1
+    rw [hsame]; exact h1
 
 theorem Moved.trans (a : Moved h h1 i) (b : Moved h1 h2 i) (hv : (h1.view i).blob = (h.view i).blob)
     (hl : h1.lockCount (h.view i).blob = h.lockCount (h.view i).blob)
